@@ -310,7 +310,9 @@ func List(tier string) []Scenario {
 	// concurrent Compile calls (no shared expression: only package-level state can collide)
 	out = append(out, compileScenario([]string{"//a[b]", "count(//a) + 1"}, nil), compileScenario([]string{"*[last()]", "*[last()]"}, nil),
 		compileScenario([]string{"concat(a, 'x')", "a[1"}, nil), compileScenario([]string{"p:a", "//p:*"}, map[string]string{"p": "u"}),
-		compileScenario([]string{"string-join(//b, ',')", "normalize-space(.)"}, nil))
+		compileScenario([]string{"string-join(//b, ',')", "normalize-space(.)"}, nil),
+		// one namespace map shared by the callers; a well-known prefix the map does not bind
+		compileScenario([]string{"//@xml:lang", "//xml:a | //p:a"}, map[string]string{"p": "u"}), compileScenario([]string{"//xmlns:a", "//p:a[@xml:id]"}, map[string]string{"p": "u"}))
 	if tier == "thorough" {
 		out = append(out, compileScenario([]string{"//a", "//b", "a | b"}, nil))
 	}
